@@ -146,6 +146,10 @@ def check_order_of_phases(repo, rep):
                        "recorded): in every step no strategy executes - and nothing of the end-of-minute protocol happens - before the "
                        "step's candles of every symbol have been stored and matched")
     S.check_protocol(repo, rep, "C01-R5", what="order")
+    rep.rule("C01-R5c", "same sessions: every minute of every symbol is fed exactly once, minute-major (no symbol runs ahead of another by more than "
+                        "the minute being processed), and the normal simulator has advanced the clock to the end of a minute before it stores "
+                        "and matches it (a hook stamped t never sees a candle that ends after t)")
+    S.check_cover(repo, rep, "C01-R5c", clock=True)
     rep.rule("C01-R5b", "same sessions: a higher-timeframe candle is only generated from 1m candles of minutes that have already been matched "
                         "(never from later ones), each completed window once, before the strategies of that step run")
     S.check_generation(repo, rep, "C01-R5b")
